@@ -84,6 +84,18 @@ CallCombinedWithArrays(f, p, i, s, k, via) ==
                            term |-> <<"F", funcs[f].model, p, hist[k].term, i, s>>])
   /\ UNCHANGED <<funcs, hidden, held>>
 
+\* A call the documented interface rejects: the simulate target without value arrays; initial states that do not name
+\* exactly the model's states.  It raises ValueError, returns nothing, and leaves no trace in anything a later call could read
+\* (no variable but the history changes): purity on the error path.
+BadKinds == {"no-arrays", "missing-initial-state", "unknown-initial-state"}
+RejectedCall(f, p, i, s, kind) ==
+  /\ kind \in BadKinds
+  /\ (kind = "no-arrays") <=> (funcs[f].target = "simulate")
+  /\ funcs[f].target # "solve"
+  /\ hist' = Append(hist, [op |-> "rejected", f |-> f, model |-> funcs[f].model, target |-> funcs[f].target, jit |-> funcs[f].jit,
+                           p |-> p, init |-> i, seed |-> s, vfrom |-> 0, via |-> "fresh", term |-> <<"rejected", kind>>])
+  /\ UNCHANGED <<funcs, hidden, held>>
+
 ANext ==
   \/ \E m \in Models, tg \in Targets, j \in BOOLEAN : Create(m, tg, j)
   \/ \E f \in DOMAIN funcs, p \in ParamSets : FillTemplate(f, p)
@@ -91,13 +103,14 @@ ANext ==
   \/ \E f \in DOMAIN funcs, p \in ParamSets, i \in Inits, s \in Seeds, k \in DOMAIN hist, v \in Vias : CallSimulate(f, p, i, s, k, v)
   \/ \E f \in DOMAIN funcs, p \in ParamSets, i \in Inits, s \in Seeds, v \in Vias : CallSolveAndSimulate(f, p, i, s, v)
   \/ \E f \in DOMAIN funcs, p \in ParamSets, i \in Inits, s \in Seeds, k \in DOMAIN hist, v \in Vias : CallCombinedWithArrays(f, p, i, s, k, v)
+  \/ \E f \in DOMAIN funcs, p \in ParamSets, i \in Inits, s \in Seeds, kind \in BadKinds : RejectedCall(f, p, i, s, kind)
 ASpec == AInit /\ [][ANext]_avars
 
 \* purity at the level of the specification
 NoHiddenState == hidden = "none"
 TermDependsOnArgumentsOnly ==
   \A a, b \in DOMAIN hist :
-    (hist[a].op = hist[b].op /\ hist[a].op \notin {"create", "fill"} /\ hist[a].model = hist[b].model /\ hist[a].p = hist[b].p
+    (hist[a].op = hist[b].op /\ hist[a].op \notin {"create", "fill", "rejected"} /\ hist[a].model = hist[b].model /\ hist[a].p = hist[b].p
      /\ hist[a].init = hist[b].init /\ hist[a].seed = hist[b].seed
      /\ (hist[a].vfrom = 0 <=> hist[b].vfrom = 0)
      /\ (hist[a].vfrom # 0 => hist[hist[a].vfrom].term = hist[hist[b].vfrom].term))
@@ -110,6 +123,8 @@ CombinedIsSolveThenSimulate ==
     => hist[a].term = hist[b].term
 \* an object the user holds is changed by the user only: no call on any function object writes to it
 HeldChangedByUserOnly == [][held' # held => hist'[Len(hist')].op \in {"create", "fill"}]_avars
+\* a rejected call changes nothing but the history
+RejectedCallsLeaveNoTrace == [][hist'[Len(hist')].op = "rejected" => UNCHANGED <<funcs, hidden, held>>]_avars
 \* passing the held object or a fresh one with the same content denotes the same result (the term does not mention `via')
 Bound == Len(hist) <= Depth
 =============================================================================
